@@ -317,6 +317,7 @@ def gen_cases(ctx, n, kinds=A.KINDS, big=False):
         else:
             v = g(ctx.rng)
         cases.append((kind, v))
+    cases += [c for c in A.corner_cases(ctx.rng) if c[0] in kinds]
     return cases
 
 
